@@ -1,12 +1,17 @@
 #!/bin/bash
 # seedtest.sh <seed name> <prop ids...>: apply a seeded change to /repo, run the quick checks, undo it.
+# The evidence files describe the unchanged tree: they are put back afterwards.
 set -u
 NAME=$1; shift
 cd /verif
 git -C /repo diff --quiet || { echo "/repo is dirty"; exit 2; }
-git -C /repo apply /verif/seeded/$NAME/patch.diff || exit 2
+SAVE=$(mktemp -d /root/.seedtest.XXXXXX)
+cp -a evidence/. "$SAVE"/
+git -C /repo apply /verif/seeded/$NAME/patch.diff || { rm -rf "$SAVE"; exit 2; }
 for P in "$@"; do
   OUT=$(./check $P --tier quick 2>&1 | grep -E "VIOLATION|KNOWN-FINDING" | head -3)
   echo "[$NAME] $P: ${OUT:-no alarm}"
 done
 git -C /repo checkout -- .
+cp -a "$SAVE"/. evidence/
+rm -rf "$SAVE"
